@@ -42,7 +42,12 @@ def run_history(cfg, ops):
             samplers = [C.make_sampler(s_) for s_ in lineup]
             for pos, src in cfg["same_instance"].items():
                 samplers[int(pos)] = samplers[int(src)]
-        cal = C.build(cfg2, samplers=samplers)
+        try:
+            cal = C.build(cfg2, samplers=samplers)
+        except ValueError:
+            if cfg.get("same_instance"):
+                return [], ("rejected-repeated-instance",)   # listing one object twice refused outright: nothing scheduled, nothing to judge
+            raise
         rec = C.Recorder()
         with rec:
             for op in ops:
